@@ -11,17 +11,17 @@ git apply --check "$SD/$V.patch" || { echo "SEED: patch does not apply"; exit 2;
 RUN=$(cat "$SD/${V}_demo/RUN.txt" | head -1)
 RUN=${RUN//SEED_OUT/$SD}
 echo "== demo WITHOUT change: $RUN"
-( cd $W && timeout 300 bash -c "$RUN" >/tmp/seed_demo_without.txt 2>&1 ); r0=$?
-grep -qE '^(--- FAIL|FAIL|panic:)' /tmp/seed_demo_without.txt && r0=1
+( cd $W && timeout 300 bash -c "$RUN" >$W.seed_demo_without.txt 2>&1 ); r0=$?
+grep -qE '^(--- FAIL|FAIL|panic:)' $W.seed_demo_without.txt && r0=1
 echo "   exit $r0"
 git checkout -q -- . ; git clean -fdq
 git apply "$SD/$V.patch"
-echo "== build with change"; go build ./... && go test -count=1 -run '^$' ./... >/dev/null 2>/tmp/seed_build.txt || { echo "SEED: build fails"; tail -5 /tmp/seed_build.txt; }
+echo "== build with change"; go build ./... && go test -count=1 -run '^$' ./... >/dev/null 2>$W.seed_build.txt || { echo "SEED: build fails"; tail -5 $W.seed_build.txt; }
 echo "== baseline tests with change: $*"
 /verif/scripts/baseline_check.sh $W "$@"; rb=$?
 echo "== demo WITH change"
-( cd $W && timeout 300 bash -c "$RUN" >/tmp/seed_demo_with.txt 2>&1 ); r1=$?
-grep -qE '^(--- FAIL|FAIL|panic:)' /tmp/seed_demo_with.txt && r1=1
-echo "   exit $r1"; tail -5 /tmp/seed_demo_with.txt | cut -c1-200
+( cd $W && timeout 300 bash -c "$RUN" >$W.seed_demo_with.txt 2>&1 ); r1=$?
+grep -qE '^(--- FAIL|FAIL|panic:)' $W.seed_demo_with.txt && r1=1
+echo "   exit $r1"; tail -5 $W.seed_demo_with.txt | cut -c1-200
 git clean -fdq   # remove demo files, keep the change applied for the checker run
 echo "RESULT without=$r0 (want 0) with=$r1 (want !=0) baseline_rc=$rb (want 0)"
